@@ -28,7 +28,16 @@ EXPLANATION = (
     "module_to_output is the result of write_default_pyi() (written before "
     "ninja starts, R19.7) or of write_build_statement(...), which returns "
     "exactly the path it declares as the statement's output - so each entry "
-    "names the output of a step < k.  (P2, R19.2) the `|` dependencies of "
+    "names the output of a step < k.  The map returned by get_imports_map "
+    "must be a new object (an empty dict, or a private copy of "
+    "module_to_imports_map[dep]): when its binding may be a dict *stored* in "
+    "module_to_imports_map (subscript/.get/.setdefault on the parameter, "
+    "directly, through a local or one arm of a conditional expression) and "
+    "the function then mutates it, the stored map of that dependency - and "
+    "every later module inheriting from it - gains entries outside the "
+    "closure of its declared deps (definite violation, not an analysis "
+    "error; aliasing through containers or helper calls is not tracked).  "
+    "(P2, R19.2) the `|` dependencies of "
     "step k are module_to_output[m] for the same deps binding, filtered only "
     "by `!= default_output`, each escaped and placed after ' | ' in the build "
     "line.  (P3, R19.2) module_to_imports_map[module] and "
@@ -467,13 +476,91 @@ def _r19_1_get_imports_map(ctx, m):
   rdefs = {rd.single_def(r.value, "result") for r in rets}
   r_def = _one(list(rdefs), "result binding of get_imports_map")
   fresh = r_def.kind == "assign" and not r_def.path and _empty_dict(r_def.value)
+
+  def dep_elem(node):
+    """An element of the deps parameter: the loop variable or deps[<const>]."""
+    return dep_var(node) or (
+        isinstance(node, ast.Subscript) and is_param(node.value, p_deps)
+        and isinstance(node.slice, ast.Constant) and isinstance(node.slice.value, int))
+
+  def stored_map_of_dep(e):
+    """`module_to_imports_map[dep]` / `.get(dep, {})`: a dict object that is
+    STORED in the parameter (shared with the caller and with earlier steps)."""
+    if isinstance(e, ast.Subscript) and is_param(e.value, p_map) and dep_elem(e.slice):
+      return True
+    return isinstance(e, ast.Call) and isinstance(e.func, ast.Attribute) \
+        and e.func.attr in ("get", "setdefault", "pop") and is_param(e.func.value, p_map) \
+        and e.args and dep_elem(e.args[0])
+
+  def initial_kinds(e):
+    """How the result object comes to be: set of (kind, expr) with kind in
+    empty / copy / alias / unknown, over the arms of conditional expressions."""
+    if isinstance(e, ast.IfExp):
+      return initial_kinds(e.body) | initial_kinds(e.orelse)
+    if isinstance(e, ast.BoolOp) and isinstance(e.op, ast.Or):
+      out = set()
+      for v in e.values:
+        out |= initial_kinds(v)
+      return out
+    if _empty_dict(e):
+      return {("empty", e)}
+    if isinstance(e, ast.Call) and dotted(e.func) == "dict" and len(e.args) == 1 \
+        and not e.keywords:
+      return {("copy", e.args[0])}
+    if isinstance(e, ast.Call) and isinstance(e.func, ast.Attribute) \
+        and e.func.attr == "copy" and not e.args:
+      return {("copy", e.func.value)}
+    if isinstance(e, ast.Dict) and e.keys == [None]:
+      return {("copy", e.values[0])}
+    if stored_map_of_dep(e) or any(is_param(e, p) for p in (p_map, p_out)):
+      return {("alias", e)}
+    if isinstance(e, ast.Name):
+      ds = rd.defs_of(e)
+      if len(ds) == 1 and next(iter(ds)).kind == "assign" and not next(iter(ds)).path:
+        return initial_kinds(next(iter(ds)).value)
+    return {("unknown", e)}
+
+  init = initial_kinds(r_def.value) if r_def.kind == "assign" and not r_def.path else set()
+  aliases = [e for k, e in init if k == "alias"]
+  mutated = sorted({k for k in (_classify(mod, u)[0] for u in _uses_of(rd, fn, r_def))
+                    if k in ("store", "del") or (k.startswith("method:") and k[7:] in (
+                        "update", "setdefault", "pop", "popitem", "clear", "__setitem__"))})
+  if aliases and mutated:
+    # definite: the object returned (and stored by the caller as this module's
+    # map) is a dict that already belongs to another module, mutated in place
+    ctx.bad("get_imports_map:result-is-fresh-dict", RUN, r_def.node.lineno,
+            f"the returned map is bound by {r_def.describe()}: on that path it IS the dict "
+            f"stored in {p_map.name} for a dependency (`{src(aliases[0])}`, no copy) and is then "
+            f"mutated in place ({', '.join(mutated)}); the dependency's stored map - and every "
+            "later module that inherits from it - silently gains the entries of this module's "
+            "other dependencies, which are not in the transitive closure of their declared "
+            "ninja deps (a parallel schedule may read such a stub before it is written)",
+            {"binding": r_def.describe(), "aliases": [src(e) for e in aliases],
+             "mutations": mutated})
+  alias_reported = bool(aliases and mutated)
+  if init and all(k in ("empty", "copy") for k, _ in init) and any(k == "copy" for k, _ in init):
+    bad_src = [e for k, e in init if k == "copy" and not stored_map_of_dep(e)]
+    if bad_src:
+      raise AnalysisError(
+          f"get_imports_map: the result starts as a copy of `{src(bad_src[0])}`, whose "
+          "provenance is not understood")
+    # a private copy of a dependency's stored map: same entries as inheriting it
+    fresh = True
   # parameters are only read
   for p, allowed in ((p_out, {"read", "contains"}), (p_map, {"read", "contains", "method:get"}),
-                     (p_deps, {"iterate", "arg"})):
+                     (p_deps, {"iterate", "arg", "read", "truth"})):
     for use in _uses_of(rd, fn, p):
       kind, node = _classify(mod, use)
       if kind == "arg" and dotted(node.func) not in (
-          "sorted", "tuple", "list", "set", "frozenset", "reversed", "iter"):
+          "sorted", "tuple", "list", "set", "frozenset", "reversed", "iter", "len", "bool"):
+        kind = "escape"
+      if kind == "other" and (
+          (isinstance(node, (ast.IfExp, ast.If, ast.While)) and node.test is use)
+          or isinstance(node, ast.BoolOp)
+          or (isinstance(node, ast.UnaryOp) and isinstance(node.op, ast.Not))):
+        kind = "truth"
+      if kind == "read" and p is p_deps and not (
+          isinstance(node.slice, ast.Constant) or isinstance(node.slice, ast.Slice)):
         kind = "escape"
       if p is p_out and kind.startswith("method:"):
         continue  # judged below at the store it feeds
@@ -564,10 +651,12 @@ def _r19_1_get_imports_map(ctx, m):
     else:
       raise AnalysisError(
           f"get_imports_map: result dict used as `{kind}` at line {use.lineno}")
-  ctx.check(fresh, "get_imports_map:result-is-fresh-dict", RUN, fn.lineno,
-            f"the returned map is bound by {r_def.describe()}; it must start "
-            "as an empty dict so that every entry has the provenance above",
-            {"binding": r_def.describe(), "uses": sorted(set(kinds))})
+  if not alias_reported:
+    ctx.check(fresh, "get_imports_map:result-is-fresh-dict", RUN, fn.lineno,
+              f"the returned map is bound by {r_def.describe()}; it must start "
+              "as an empty dict (or a private copy of a dependency's stored "
+              "map) so that every entry has the provenance above",
+              {"binding": r_def.describe(), "uses": sorted(set(kinds))})
   if not entries:
     ctx.bad("get_imports_map:entry<-output[dep]", RUN, fn.lineno,
             "no imports-map entry is inserted for the direct dependencies")
@@ -2014,6 +2103,26 @@ VARIANTS = [
        "    imports_map.update(module_to_imports_map.get(m, {}))", "silent"),
     _v("twin-get_imports_map-renamed-locals", "R19.1", _GIM_OLD, _GIM_RENAMED,
        "silent"),
+    {"name": "seeded-C19-r2m1", "rule": "R19.1", "patch": "seeded/C19-r2m1/patch.diff",
+     "expect": "fire"},
+    # different shape: the alias is taken inside the loop from the first stored map met
+    _v("imports-map-aliases-first-stored-map", "R19.1",
+       "  imports_map = {}\n  for m in deps:\n    if m in module_to_imports_map:\n",
+       "  imports_map = module_to_imports_map[deps[0]] if deps and deps[0] in module_to_imports_map else {}\n"
+       "  for m in deps:\n    if m in module_to_imports_map:\n"),
+    # different shape: via a local name and setdefault (which also writes into the parameter)
+    _v("imports-map-aliases-via-local", "R19.1",
+       "  imports_map = {}\n  for m in deps:\n",
+       "  first = module_to_imports_map.get(deps[0], {}) if deps else {}\n"
+       "  imports_map = first\n  for m in deps:\n"),
+    # benign: a private copy of the first dependency's stored map
+    _v("twin-imports-map-starts-as-copy", "R19.1",
+       "  imports_map = {}\n  for m in deps:\n",
+       "  imports_map = dict(module_to_imports_map.get(deps[0], {})) if deps else {}\n"
+       "  for m in deps:\n", "silent"),
+    _v("twin-imports-map-dict-call", "R19.1",
+       "  imports_map = {}\n  for m in deps:\n",
+       "  imports_map = dict()\n  for m in deps:\n", "silent"),
     # R19.2
     _v("ninja-deps-extra-filter", "R19.2",
        "                   if module_to_output[m] != default_output)",
